@@ -135,6 +135,27 @@ func init() {
 					e.Violate("c17-content", fmt.Sprintf("%s rendered %q (%s %s), inline rendering gives %q", c.Tmpl, o.Out, o.Class, o.Msg, want.String()), map[string]interface{}{"case": c, "observed": o})
 				}
 			}
+			// several block results pending at once: what one replay returned must not change when the
+			// next block is rendered (loop over replays, siblings inside a block, a default block nested
+			// in another helper's block, a helper rendering its block twice with text in between)
+			if ci == 0 {
+				for _, t := range [][2]string{
+					{`<% contentFor("w") { %>[<%= who %>]<% } %><%= for (x) in ["alpha", "beta", "gamma"] { %><%= contentOf("w", {who: x}) %><% } %>`, "[alpha][beta][gamma]"},
+					{`<% contentFor("w") { %><%= who %><% } %><%= if (true) { %><%= contentOf("w", {who: "first"}) %>|<%= contentOf("w", {who: "2nd"}) %><% } %>`, "first|2nd"},
+					{`<%= blk() { %>outer:<%= contentOf("nope") { %>inner<% } %><% } %>`, "[outer:inner]"},
+					{`<%= blk() { %>a<%= blk() { %>bb<%= blk() { %>ccc<% } %>dd<% } %>e<% } %>`, "[a[bb[ccc]dd]e]"},
+					{`<%= blk2() { %>x<%= blk2() { %>yy<% } %>z<% } %>`, "xyy|yyz|xyy|yyz"},
+					{`<% let a = blkctx({who: "p"}) { %><%= who %><% } %><% let b = blkctx({who: "qq"}) { %><%= who %><% } %><%= a %><%= b %><%= a %>`, "pqqp"},
+					{`<% contentFor("w") { %><%= who %>.<% } %><% let a = contentOf("w", {who: "one"}) %><% let b = contentOf("w", {who: "two2"}) %><%= a %><%= b %><%= a %>`, "one.two2.one."},
+				} {
+					c := RCase{Tmpl: t[0], Binds: c17binds()}
+					o := e.addRenderCase("pending-blocks", c)
+					e.Distinct(c.Tmpl)
+					if o.Class != "OK" || o.Out != t[1] {
+						e.Violate("c17-content", fmt.Sprintf("%s rendered %q (%s %s), inline rendering gives %q", c.Tmpl, o.Out, o.Class, firstLine(o.Msg), t[1]), map[string]interface{}{"case": c, "observed": o})
+					}
+				}
+			}
 			// default block, missing name
 			if ci == 0 {
 				// blocks with nothing in them are blocks all the same: an empty default block renders
